@@ -113,7 +113,7 @@ ProbeOK(f, args, B, A, r) ==
   IF \E i \in 1..Len(B) : LET o == B[i] IN
         /\ Has(A, o.id)
         /\ (Obj(A, o.id).val # o.val \/ Range(Obj(A, o.id).coords) # Range(o.coords) \/ Range(Obj(A, o.id).attrs) # Range(o.attrs))
-        /\ ~(f \in ViewOf /\ Shares(r, o))
+        /\ ~(f \in ViewOf /\ (Shares(r, o) \/ CShares(r, o)))
   THEN "write_to_output_changed_input" ELSE "ok"
 
 \* ------------------------------------------------------------------ clause 3: identity of the raster
